@@ -987,6 +987,14 @@ def wl_uncertainty(spec, rec, cmp, envs, rng):
 
 
 # ---- damaged strings -------------------------------------------------------------------
+DIRECTED_DAMAGE = {          # original -> copy with one operand removed (a pattern random damage rarely hits)
+    "3 + m / -2": "3 +  / -2",
+    "2 m + s / - 3": "2 m +  / - 3",
+    "(3 + 2 / -m)": "(3 +  / -m)",
+    "km + 3/-(2 s)": "km + /-(2 s)",
+}
+
+
 def wl_truncations(spec, rec, cmp, envs, rng):
     from harness import c07_lang as L
     total = 36_000 if spec["tier"] == "quick" else 500_000
@@ -994,9 +1002,12 @@ def wl_truncations(spec, rec, cmp, envs, rng):
     names = list(envs)
     done = 0
     guard = 0
+    directed = list(DIRECTED_DAMAGE) if spec["part"] < 3 else []
     while done < budget and guard < budget * 4:
         guard += 1
-        if cmp.pool and rng.random() < 0.5:
+        if directed:
+            s = directed.pop()
+        elif cmp.pool and rng.random() < 0.5:
             s = rng.choice(cmp.pool)
         else:
             t = L.random_tree(rng, rng.randint(2, 7))
@@ -1005,7 +1016,10 @@ def wl_truncations(spec, rec, cmp, envs, rng):
                 L.ref_parse(s)
             except L.RefSyntaxError:
                 continue
-        for kind, d in L.truncations(s, rng):
+        cands = L.truncations(s, rng, per_kind=2 if len(s) > 16 else 4)
+        if s in DIRECTED_DAMAGE:
+            cands = [("drop-operand", DIRECTED_DAMAGE[s])]
+        for kind, d in cands:
             try:
                 L.ref_parse(d)
                 rec.count("truncation_still_wellformed")
@@ -1024,9 +1038,17 @@ def wl_truncations(spec, rec, cmp, envs, rng):
                 rec.count("truncations_must_raise")
                 rec.case(("truncation", kind, reason, got[0] if got[0] != "err" else got[1]))
                 if got[0] == "ok":
-                    rec.violation("damaged-input-yields-value",
-                                  {"original": s, "damaged": d, "value": short(got[1])},
-                                  damage=kind, reason=reason, nit=env.nitname)
+                    seq = [t[1] for t in L.ref_tokens(d)]
+                    glued = any(seq[k:k + 3] == ["+", "/", "-"] for k in range(len(seq)))
+                    if glued:
+                        # '+', '/', '-' are separate tokens here (blanks between them or an operand
+                        # removed), yet pint's tokenizer fuses them into the '+/-' operator
+                        rec.violation("separated-plus-slash-minus-read-as-uncertainty-operator",
+                                      {"original": s, "damaged": d, "value": short(got[1])}, reason=reason)
+                    else:
+                        rec.violation("damaged-input-yields-value",
+                                      {"original": s, "damaged": d, "value": short(got[1])},
+                                      damage=kind, reason=reason, nit=env.nitname)
                 elif got[0] in ("timeout", "base"):
                     rec.violation("damaged-input-" + got[0], {"original": s, "damaged": d}, damage=kind, reason=reason)
             else:
